@@ -181,6 +181,10 @@ pub fn events_fx() -> Alphabet {
         evs.push(capret(d, "X", "10", "5 USD", "1 EUR"));
         evs.push(accum(d, "X", "10", "7 EUR", "0"));
     }
+    // amount and FEES/TAX in different currencies, one of them sterling (written without a code)
+    evs.push(capret(off(b, 3), "X", "10", "6", "1 USD"));
+    evs.push(capret(off(b, 20), "X", "10", "8 USD", "1"));
+    evs.push(accum(off(b, -30), "X", "10", "7 USD", "1"));
     for o in [-25i64, 2] {
         evs.push(split(off(b, o), "X", "2"));
     }
@@ -362,4 +366,31 @@ pub fn events_two_adj() -> Alphabet {
     let mut rules = Rules::STRICT;
     rules.one_adj = false;
     Alphabet::new("events-two-adj", evs, rules)
+}
+
+/// `match1-same-day`: the `match1` events without the same-day exclusions of DESIGN §3 — SPLIT/UNSPLIT lines dated on
+/// days that also have purchases and sales (base+0, +1, +31). The tool's convention (a day's SPLIT/UNSPLIT comes
+/// before its trades; docs/spec.md, fix 9568b9a) is also R's.
+pub fn match1_same_day(ratios: &[&str]) -> Alphabet {
+    let a = match1(ratios, false);
+    let mut rules = Rules::STRICT;
+    rules.no_same_day_convention = false;
+    Alphabet::new("match1-same-day", a.evs, rules)
+}
+
+/// `fx-years` (C06): foreign-currency lines dated in the same calendar month of different years, other months in
+/// between, and sterling lines — any state carried from one line's conversion to the next shows as order dependence.
+pub fn fx_years() -> Alphabet {
+    let mut evs = vec![];
+    evs.push(buy(date(2023, 1, 16), "A", "10", "100 USD", "1 USD"));
+    evs.push(buy(date(2023, 1, 17), "B", "10", "50 EUR", "1 EUR"));
+    evs.push(buy(date(2023, 7, 10), "B", "10", "40 USD", "0"));
+    evs.push(sell(date(2024, 1, 15), "A", "5", "120 USD", "1 USD"));
+    evs.push(sell(date(2024, 1, 16), "B", "5", "60 EUR", "0.5 EUR"));
+    evs.push(sell(date(2024, 2, 5), "B", "5", "45 USD", "1"));
+    evs.push(sell(date(2025, 1, 15), "A", "5", "130 USD", "1 EUR"));
+    evs.push(buy(date(2024, 1, 15), "A", "2", "90", "0"));
+    evs.push(dividend(date(2024, 1, 20), "A", "30 USD", "3 USD"));
+    evs.push(dividend(date(2025, 1, 20), "A", "30 USD", "3 EUR"));
+    Alphabet::new("fx-years", evs, Rules::STRICT)
 }
